@@ -17,7 +17,9 @@ PARTIAL = ("C20_vol_offset_overflow assumes the header below 2 GiB (first offset
            "is created' is structural in the model and tied to the code by the dest=absent/same observation of every case")
 TRUSTED = []
 ASSUMPTIONS = ["sparse files read as zeros; scratch space for the single 2 GiB success case of the thorough tier"]
-ENV = {"OP2DRV_WATCHDOG": "150"}
+# a correct library refuses every over-limit case at once; only a violating one writes gigabytes, bounded per case by the watchdog
+# (quick: 8 s; thorough: 150 s, where one 2 GiB archive is really written) and on disk by vol.big removing stale outputs
+ENV = {"OP2DRV_WATCHDOG": "8"}
 
 G2 = 1 << 31
 G4 = 1 << 32
@@ -31,14 +33,16 @@ def archive_len(members):
 
 def cases(tier, rng):
     thorough = tier == "thorough"
+    ENV["OP2DRV_WATCHDOG"] = "150" if thorough else "8"
     for pre, dest in (("-", "absent"), ("00112233", "same")):
         refuse = lambda ms, tag: Case(line(pre, ms), expect=f"err dest={dest}", tag=tag)
         # a member that does not fit the 31-bit block length / int32 size field
         for big in (G2, G2 + 1, G2 + 4096, G4 - 1, G4, G4 + 5, 3 * G2 + 7):
             yield refuse([(b"big", big)], "member-too-large-alone")
-            yield refuse([(b"a", 5), (b"m", big), (b"z", 3)], "member-too-large-in-the-middle")
-            yield refuse([(b"big", big), (b"z", 0)], "member-too-large-first")
-            yield refuse([(b"a", 1), (b"b", 2), (b"big", big)], "member-too-large-last")
+            if pre == "-" or thorough or big in (G2, G4):
+                yield refuse([(b"a", 5), (b"m", big), (b"z", 3)], "member-too-large-in-the-middle")
+                yield refuse([(b"big", big), (b"z", 0)], "member-too-large-first")
+                yield refuse([(b"a", 1), (b"b", 2), (b"big", big)], "member-too-large-last")
         # every member fits, the accumulated offset does not — in whatever order the members are laid out (the sets are chosen
         # so that header + all members but the largest already exceed 2^32: this property does not depend on the sort order)
         yield refuse([(b"a", G2 - 1), (b"b", G2 - 1), (b"c", G2 - 1)], "offset-crosses-2^32-three-large")
